@@ -34,25 +34,29 @@ Section Paths.
     constructor; [apply IH; exact Hs'|]. rewrite Forall_forall in *. intros y Hy. apply Hall.
     eapply dedupe_incl; eauto.
   Qed.
-  Lemma dedupe_rows_map : forall (X : list elt) seen,
-    dedupe_rows seen (map snd X) = map snd (dedupe snd row_eqb seen X).
+  (* the DISTINCT pass, seen through the normalisation of -0.0: first occurrences of the
+     normalised rows *)
+  Lemma dedupe_rows_n_map : forall (X : list elt) seen,
+    map norm_row (dedupe_rows_n seen (map snd X)) = map snd (dedupe snd row_eqb seen (map norm_elt X)).
   Proof.
-    induction X as [|x X IH]; intros seen; cbn [map dedupe_rows dedupe]; [reflexivity|].
-    destruct (existsb (row_eqb (snd x)) seen); [apply IH|]. cbn [map]. f_equal. apply IH.
+    induction X as [|x X IH]; intros seen; cbn [map dedupe_rows_n dedupe]; [reflexivity|].
+    change (snd (norm_elt x)) with (norm_row (snd x)).
+    destruct (existsb (row_eqb (norm_row (snd x))) seen); [apply IH|]. cbn [map]. f_equal. apply IH.
   Qed.
 
-  (* DISTINCT applied to a sorted arrangement of all rows: first occurrences, still sorted *)
-  Lemma spec_of_sorted_distinct : forall (B X : list elt), Permutation X B -> sorted X ->
-    rows_spec cmp snd true B 0 None (dedupe_rows [] (map snd X)).
+  (* DISTINCT applied to a sorted arrangement of all rows, then the window: first occurrences,
+     still sorted *)
+  Lemma spec_of_sorted_distinct : forall (B X : list elt) o l, Permutation X B -> sorted X ->
+    rows_spec cmp snd true B o l (map snd (window o l (dedupe snd row_eqb [] X))).
   Proof.
-    intros B X Hp Hs. exists (dedupe snd row_eqb [] X).
+    intros B X o l Hp Hs. exists (dedupe snd row_eqb [] X).
     destruct (dedupe_distinct_l snd row_eqb row_eqb_spec X) as (H1 & H2 & H3).
     split; [|split].
     - cbn [picks]. split; [exact H1|split].
       + intros e He. eapply Permutation_in; [exact Hp|]. apply H2. exact He.
       + intros e He. apply H3. eapply Permutation_in; [symmetry; exact Hp|exact He].
     - apply sorted_dedupe. exact Hs.
-    - unfold window. cbn [skipn]. apply dedupe_rows_map.
+    - reflexivity.
   Qed.
 
   (* ORDER BY .. LIMIT l OFFSET o through the heap of l+o rows *)
@@ -105,48 +109,14 @@ Proof.
   rewrite Forall_forall. intros y _. cbn. discriminate.
 Qed.
 
-(* ------------------------------------------------------------------ class 7 = 0: no -0.0 in the output *)
-Lemma norm_value_id : forall v, is_negzero v = false -> norm_value v = v.
-Proof. intros [| | b | |]; cbn; intros H; try reflexivity. rewrite H. reflexivity. Qed.
-Lemma norm_row_id : forall r, existsb is_negzero r = false -> norm_row r = r.
+(* what the model returns for a DISTINCT statement, given any sorted arrangement of the elements *)
+Lemma distinct_result : forall dirs q (B X : list elt), Permutation X B -> sorted_by (elt_cmp dirs) X ->
+  rows_spec (elt_cmp dirs) snd true (map norm_elt B) (q_off q) (q_lim q)
+            (map norm_row (distinct_post q (map snd X))).
 Proof.
-  induction r as [|v r IH]; cbn [existsb norm_row map]; intros H; [reflexivity|].
-  apply orb_false_elim in H. destruct H as [H1 H2]. rewrite (norm_value_id v H1). f_equal. apply IH. exact H2.
-Qed.
-
-Lemma spec_elts_rows : forall ncols q t B, spec_elts ncols q t = Some B ->
-  forall e, In e B -> exists r, In r (filter (passes_where (q_where q)) t) /\
-                                snd e = proj (out_cols ncols (q_sel q)) r.
-Proof.
-  intros ncols q t B H e He. unfold spec_elts in H.
-  destruct (spec_dens ncols q) as [dens|]; [|discriminate].
-  apply all_some_Forall2 in H.
-  induction H as [|r e' rows B' Hre _ IH]; [contradiction|].
-  destruct He as [<-|He].
-  - exists r. split; [left; reflexivity|]. unfold spec_elt in Hre.
-    destruct (all_some (map (fun d => den_value d r) dens)); [|discriminate].
-    destruct (spec_pay ncols q r) as [p|] eqn:Ep; [|discriminate]. inversion Hre; subst. cbn [snd].
-    apply spec_pay_proj. exact Ep.
-  - destruct (IH He) as [r' [Hr' E]]. exists r'. split; [right; exact Hr'|exact E].
-Qed.
-
-Lemma no_negzero_norm : forall ncols q t B,
-  spec_elts ncols q t = Some B ->
-  existsb (fun r => existsb is_negzero (proj (out_cols ncols (q_sel q)) r))
-          (filter (passes_where (q_where q)) t) = false ->
-  map norm_elt B = B /\ (forall S, (forall e, In e S -> In e B) -> map norm_row (map snd S) = map snd S).
-Proof.
-  intros ncols q t B Hs Hn.
-  assert (Hrow : forall e, In e B -> norm_row (snd e) = snd e).
-  { intros e He. destruct (spec_elts_rows _ _ _ _ Hs e He) as [r [Hr E]]. rewrite E. apply norm_row_id.
-    destruct (existsb is_negzero (proj (out_cols ncols (q_sel q)) r)) eqn:Ex; [|reflexivity].
-    assert (existsb (fun r => existsb is_negzero (proj (out_cols ncols (q_sel q)) r))
-                    (filter (passes_where (q_where q)) t) = true); [|congruence].
-    apply existsb_exists. exists r. split; assumption. }
-  split.
-  - rewrite <- (map_id B) at 2. apply map_ext_in. intros [k p] He. unfold norm_elt. cbn [fst snd].
-    f_equal. exact (Hrow (k, p) He).
-  - intros S HS. rewrite map_map. apply map_ext_in. intros e He. apply Hrow. apply HS. exact He.
+  intros dirs q B X Hp Hs. unfold distinct_post.
+  rewrite (map_window norm_row). rewrite dedupe_rows_n_map. rewrite <- (map_window snd).
+  apply spec_of_sorted_distinct; [apply Permutation_map; exact Hp|apply sorted_map_norm; exact Hs].
 Qed.
 
 (* ------------------------------------------------------------------ the theorem *)
@@ -159,64 +129,61 @@ Qed.
 Lemma no_order_dirs : forall q, has_order q = false -> q_dirs q = [].
 Proof. intros q H. unfold has_order, q_dirs in *. destruct (q_keys q); [reflexivity|discriminate]. Qed.
 
+(* a DISTINCT statement runs without its window *)
+Lemma exec_distinct : forall q, q_distinct q = true ->
+  q_lim (exec_q q) = None /\ q_off (exec_q q) = 0 /\ has_order (exec_q q) = has_order q.
+Proof.
+  intros q Hd. unfold exec_q. rewrite Hd. cbn [andb]. destruct (has_window q) eqn:Ew.
+  - repeat split.
+  - destruct (no_window q Ew). repeat split; assumption.
+Qed.
+Lemma exec_plain : forall q, q_distinct q = false -> exec_q q = q.
+Proof. intros q Hd. unfold exec_q. rewrite Hd. reflexivity. Qed.
+Lemma exec_where : forall q, q_where (exec_q q) = q_where q.
+Proof. intros q. unfold exec_q. destruct (q_distinct q && has_window q); reflexivity. Qed.
+
 Theorem model_meets_spec_l : forall ncols q t rows,
-  known_class_case ncols q t = 0%Z ->
+  known_class_q ncols q = 0%Z ->
   model_query ncols q t = MRows rows ->
   query_spec ncols q t rows.
 Proof.
-  intros ncols q t rows Hk7 Hm. unfold query_spec.
+  intros ncols q t rows Hk Hm. unfold query_spec.
   destruct (spec_elts ncols q t) as [B|] eqn:Es; [|exact I]. intros Hdef.
-  (* the classes *)
-  unfold known_class_case in Hk7.
-  destruct (known_class_q ncols q =? 0)%Z eqn:Ek; cbn [negb] in Hk7.
-  2: { apply Z.eqb_neq in Ek. contradiction. }
-  apply Z.eqb_eq in Ek.
-  destruct (class0_facts ncols q Ek) as [Hdw _].
-  (* the model *)
+  unfold known_class_q in Hk.
   unfold model_query in Hm. destruct (negb (well_formed ncols q)); [discriminate|].
-  destruct (all_some (map (impl_elt (impl_srcs ncols q) ncols q) (filter (passes_where (q_where q)) t)))
-    as [E|] eqn:Ee; [|discriminate].
-  assert (E = B) by (eapply elements_agree; eauto). subst E.
+  rewrite <- (exec_where q) in Hm.
+  destruct (all_some (map (impl_elt (impl_srcs ncols (exec_q q)) ncols (exec_q q))
+                          (filter (passes_where (q_where (exec_q q))) t))) as [E|] eqn:Ee; [|discriminate].
+  assert (E = B).
+  { eapply (elements_agree ncols (exec_q q)); eauto. rewrite spec_elts_exec. exact Es. }
+  subst E.
   unfold result_defined in Hdef. apply andb_prop in Hdef. destruct Hdef as [Hh Hg].
   assert (Hag : forall x y, In x B -> In y B -> impl_elt_cmp (q_dirs q) x y = elt_cmp (q_dirs q) x y).
   { intros x y Hx Hy. eapply impl_elt_cmp_agrees_l; eauto. }
   assert (HPB : Forall (fun e => In e B) B) by (rewrite Forall_forall; auto).
+  destruct (isort_ext_P (impl_elt_cmp (q_dirs q)) (elt_cmp (q_dirs q)) (fun e => In e B) Hag B HPB) as [Eis _].
+  set (I := isort (c_less (elt_cmp (q_dirs q))) B) in *.
+  assert (HpI : Permutation I B) by apply isort_perm.
+  assert (HsI : sorted_by (elt_cmp (q_dirs q)) I) by apply (isort_sorted _ (elt_cmp_preorder_l (q_dirs q))).
   unfold result_spec.
-  destruct (has_order q) eqn:Eo.
-  - (* ORDER BY *)
-    destruct (q_lim q) as [l|] eqn:El.
-    + (* TopK *)
-      rewrite (topk_ext (impl_elt_cmp (q_dirs q)) (elt_cmp (q_dirs q)) (fun e => In e B) Hag _ _ HPB) in Hm.
-      destruct (topk (elt_cmp (q_dirs q)) (l + q_off q) B) as [out| |] eqn:Et; try discriminate.
-      rewrite (has_window_lim q l El), andb_true_r in Hdw. rewrite Hdw in Hm |- *.
-      inversion Hm; subst rows. apply rows_spec_norm. apply spec_of_topk. exact Et.
-    + (* Sort *)
-      destruct (isort_ext_P (impl_elt_cmp (q_dirs q)) (elt_cmp (q_dirs q)) (fun e => In e B) Hag B HPB) as [Eis _].
-      rewrite Eis, limit_machine_is_window_l in Hm. inversion Hm; subst rows. clear Hm.
-      set (I := isort (c_less (elt_cmp (q_dirs q))) B).
-      assert (HpI : Permutation I B) by apply isort_perm.
-      assert (HsI : sorted_by (elt_cmp (q_dirs q)) I) by apply (isort_sorted _ (elt_cmp_preorder_l (q_dirs q))).
-      destruct (q_distinct q) eqn:Ed.
-      * cbn [andb] in Hdw. destruct (no_window q Hdw) as [_ Hoff]. rewrite Hoff.
-        cbn [andb] in Hk7.
-        destruct (existsb _ _) eqn:Ex in Hk7; [discriminate|].
-        destruct (no_negzero_norm _ _ _ _ Es Ex) as [HB HS]. rewrite HB.
-        unfold distinct_post. rewrite El, Hoff. unfold window. cbn [skipn].
-        rewrite dedupe_rows_map. rewrite HS.
-        -- rewrite <- dedupe_rows_map. apply spec_of_sorted_distinct; assumption.
-        -- intros e He. eapply Permutation_in; [exact HpI|]. eapply dedupe_incl; eauto.
-      * apply rows_spec_norm. exact (spec_of_sorted (q_dirs q) B I (q_off q) None HpI HsI).
-  - (* no ORDER BY *)
-    rewrite limit_machine_is_window_l in Hm. inversion Hm; subst rows. clear Hm.
-    rewrite (no_order_dirs q Eo) in *.
-    destruct (q_distinct q) eqn:Ed.
-    + cbn [andb] in Hdw. destruct (no_window q Hdw) as [Hlim Hoff]. rewrite Hlim, Hoff.
-      cbn [andb] in Hk7.
-      destruct (existsb _ _) eqn:Ex in Hk7; [discriminate|].
-      destruct (no_negzero_norm _ _ _ _ Es Ex) as [HB HS]. rewrite HB.
-      unfold distinct_post. rewrite Hlim, Hoff. unfold window. cbn [skipn].
-      rewrite dedupe_rows_map. rewrite HS.
-      * rewrite <- dedupe_rows_map. apply spec_of_sorted_distinct; [reflexivity|apply sorted_no_keys].
-      * intros e He. eapply dedupe_incl; eauto.
-    + apply rows_spec_norm. apply spec_of_sorted; [reflexivity|apply sorted_no_keys].
+  destruct (q_distinct q) eqn:Ed.
+  - (* DISTINCT: the whole ordered result, de-duplicated, then the window *)
+    destruct (exec_distinct q Ed) as (El & Eo & Eh). rewrite El, Eo, Eh in Hm.
+    destruct (has_order q) eqn:Eord.
+    + rewrite Eis, limit_machine_is_window_l in Hm. inversion Hm; subst rows.
+      exact (distinct_result (q_dirs q) q B I HpI HsI).
+    + rewrite limit_machine_is_window_l in Hm. inversion Hm; subst rows.
+      rewrite (no_order_dirs q Eord).
+      exact (distinct_result [] q B B (Permutation_refl B) (sorted_no_keys B)).
+  - rewrite (exec_plain q Ed) in Hm.
+    destruct (has_order q) eqn:Eord.
+    + destruct (q_lim q) as [l|] eqn:El.
+      * rewrite (topk_ext (impl_elt_cmp (q_dirs q)) (elt_cmp (q_dirs q)) (fun e => In e B) Hag _ _ HPB) in Hm.
+        destruct (topk (elt_cmp (q_dirs q)) (l + q_off q) B) as [out| |] eqn:Et; try discriminate.
+        inversion Hm; subst rows. apply rows_spec_norm. apply spec_of_topk. exact Et.
+      * rewrite Eis, limit_machine_is_window_l in Hm. inversion Hm; subst rows.
+        apply rows_spec_norm. exact (spec_of_sorted (q_dirs q) B I (q_off q) None HpI HsI).
+    + rewrite limit_machine_is_window_l in Hm. inversion Hm; subst rows.
+      rewrite (no_order_dirs q Eord).
+      apply rows_spec_norm. apply spec_of_sorted; [reflexivity|apply sorted_no_keys].
 Qed.
